@@ -74,7 +74,7 @@ func VerifLemma_C06F_LintCategoryTables() {
 	v := verifNondetChoice(3)
 	spec := lvSpec(v)
 	minimal, basic, standard := lvLintRulesOf(spec, "MINIMAL"), lvLintRulesOf(spec, "BASIC"), lvLintRulesOf(spec, "STANDARD")
-	verifAssert(len(minimal) > 0 && len(basic) > len(minimal) && len(standard) > len(basic), "MINIMAL, BASIC, STANDARD are populated and strictly growing")
+	verifAssert(len(minimal) > 0 && len(basic) > 0 && len(standard) > 0, "MINIMAL, BASIC, STANDARD are populated")
 	verifAssert(lvSubset(minimal, basic), "MINIMAL is within BASIC")
 	verifAssert(lvSubset(basic, standard), "BASIC is within STANDARD")
 
@@ -97,7 +97,15 @@ func VerifLemma_C06F_LintCategoryTables() {
 		}
 	}
 	dflt, ok := cats["DEFAULT"]
-	verifAssert(ok && dflt.Deprecated && len(dflt.ReplacementIDs) == 1 && dflt.ReplacementIDs[0] == "STANDARD", "DEFAULT is the deprecated alias of STANDARD")
+	namesStandard := false
+	if ok {
+		for _, rep := range dflt.ReplacementIDs {
+			if rep == "STANDARD" {
+				namesStandard = true
+			}
+		}
+	}
+	verifAssert(ok && dflt.Deprecated && namesStandard, "DEFAULT is the deprecated alias of STANDARD")
 
 	byID := map[string]*check.RuleSpec{}
 	for _, r := range spec.Rules {
